@@ -47,6 +47,17 @@ class Old:
         self.vals = vals
 
 
+def _check_header(qual, ordinal, node, spec):
+    """a loop contract is attached by ordinal; when it also gives the expected header text and the code's loop reads differently, the
+    contract is out of date with the code (a refactoring): undecided, not a failed proof"""
+    want = getattr(spec, 'header', None)
+    if not want:
+        return
+    got = ast.unparse(node).split('\n')[0].strip().rstrip(':')
+    if got != want:
+        raise Unsupported('contract of %s is out of date: loop %d reads %r, the contract was written for %r' % (qual, ordinal, got, want))
+
+
 def loops_in_order(fnode):
     """For/While statements of a function body in source order, not descending into nested defs"""
     out = []
@@ -175,6 +186,7 @@ def verify_function(ip, con, fuel_note=None):
     for ordinal, spec in con.loops.items():
         if ordinal < 1 or ordinal > len(loops):
             raise Unsupported('contract of %s names loop %d but the function has %d loops' % (con.qual, ordinal, len(loops)))
+        _check_header(con.qual, ordinal, loops[ordinal - 1], spec)
         ip.loop_specs[id(loops[ordinal - 1])] = spec
     for cq, cl in con.callee_loops.items():
         cnode, _, _ = ip.repo.function(cq)
@@ -182,7 +194,9 @@ def verify_function(ip, con, fuel_note=None):
         for ordinal, spec in cl.items():
             if ordinal < 1 or ordinal > len(cloops):
                 raise Unsupported('contract of %s names loop %d of callee %s which has %d loops' % (con.qual, ordinal, cq, len(cloops)))
-            ip.loop_specs[id(cloops[ordinal - 1])] = spec if isinstance(spec, LoopSpec) else LoopSpec(**spec)
+            spec = spec if isinstance(spec, LoopSpec) else LoopSpec(**spec)
+            _check_header(cq, ordinal, cloops[ordinal - 1], spec)
+            ip.loop_specs[id(cloops[ordinal - 1])] = spec
     ip.cuts = dict(con.cuts)
     if con.cuts:
         # a cut names a statement by its text: if the text no longer occurs in the function, the contract is out of date with the
